@@ -512,7 +512,14 @@ class SymCtx:
     def enumerate_int(self, t):
         for _ in range(self.opts.get('max_enum', 4096)):
             r = self._check()
+            if r == z3.unknown:  # time-out under load: retry once with a long time-out before giving up
+                r = self._check(timeout_ms=120000)
+            if r == z3.unknown:
+                # (numpy swallows exceptions raised inside __index__ and raises IndexError instead: remember why)
+                self._steering = 'budget'
+                raise PathBudget("solver unknown while enumerating an index")
             if r != z3.sat:
+                self._steering = 'infeasible'
                 raise InfeasiblePath()
             v = self.solver.model().eval(t, model_completion=True).as_long()
             if self.branch(t == v):
@@ -937,10 +944,19 @@ def explore(fn, name='case', opts=None):
         except RecursionError as e:
             ctx._fail('harness:recursion', 'harness', None, str(e)[:200])
         except Exception as e:  # noqa
-            # an exception of the code under check on a feasible path: reported as a violation candidate,
-            # confirmed (or rejected as harness error) by the concrete replay
-            ctx.obligations += 1
-            ctx._fail(f'exception:{type(e).__name__}', 'violation', ctx.path_model(), _tb_tail(e))
+            if getattr(ctx, '_steering', None) is not None:
+                # a path-steering exception raised inside __index__ was converted by numpy into an ordinary
+                # IndexError: this is not an exception of the code under check
+                aborted = True
+                if ctx._steering == 'budget':
+                    res.complete = False
+                else:
+                    res.infeasible += 1
+            else:
+                # an exception of the code under check on a feasible path: reported as a violation candidate,
+                # confirmed (or rejected as harness error) by the concrete replay
+                ctx.obligations += 1
+                ctx._fail(f'exception:{type(e).__name__}', 'violation', ctx.path_model(), _tb_tail(e))
         finally:
             if prof is not None:
                 sys.setprofile(None)
